@@ -124,6 +124,8 @@ impl LanguageServer for Server {
                 return Ok(None);
             };
 
+            #[cfg(feature = "verif")]
+            crate::verif_hooks::point("task:before_vfs_read");
             let vfs = snap.vfs.read().unwrap();
             let lsp_location = to_proto::location(&vfs, &line_index, location);
             Ok(Some(GotoDefinitionResponse::Scalar(lsp_location)))
@@ -141,6 +143,8 @@ impl LanguageServer for Server {
             let Some(location_list) = snap.analysis.references(pos) else {
                 return Ok(None);
             };
+            #[cfg(feature = "verif")]
+            crate::verif_hooks::point("task:before_vfs_read");
             let vfs = snap.vfs.read().unwrap();
             let lsp_location_list = location_list
                 .into_iter()
@@ -224,6 +228,8 @@ impl LanguageServer for Server {
                 return Ok(None);
             };
 
+            #[cfg(feature = "verif")]
+            crate::verif_hooks::point("task:before_vfs_read");
             let vfs = snap.vfs.read().unwrap();
             let lsp_links = links
                 .into_iter()
@@ -272,7 +278,11 @@ impl LanguageServer for Server {
 impl Server {
     fn set_file_content(&mut self, uri: &Url, text: &str) {
         let path = UrlExt::to_file_path(uri);
+        #[cfg(feature = "verif")]
+        crate::verif_hooks::point("main:before_vfs_write");
         let mut vfs = self.vfs.write().unwrap();
+        #[cfg(feature = "verif")]
+        crate::verif_hooks::point("main:holding_vfs_write");
         let file_id = vfs.assign_or_get_file_id(path);
         let text = Arc::from(text);
         self.host.set_file_content(file_id, text);
@@ -290,6 +300,8 @@ impl Server {
                     .map(|diag| to_proto::diagnostic(&line_index, diag))
                     .collect();
 
+                #[cfg(feature = "verif")]
+                crate::verif_hooks::point("task:before_vfs_read");
                 let vfs = snap.vfs.read().unwrap();
                 let file_path = vfs.path_for_file(&file_id);
                 let file_uri = UrlExt::from_file_path(file_path);
@@ -317,6 +329,8 @@ impl Server {
             analysis: self.host.analysis(),
             vfs: Arc::clone(&self.vfs),
         };
+        #[cfg(feature = "verif")]
+        let f = crate::verif_hooks::track(f);
         task::spawn_blocking(move || f(snap, params))
     }
 }
